@@ -42,6 +42,7 @@ def _run_variant(prop, patch, expect_violation):
         rr = extract.run_extraction(scratch, out, extract.DEPS_TARGET, nonce)
         if rr.returncode != 0 or not os.path.exists(os.path.join(out, "tree_sitter_graph-lib.json")):
             return {"patch": os.path.relpath(patch, VERIF), "status": "does-not-build", "detail": rr.stdout[-300:]}
+        extract.run_control_extraction(scratch, out, nonce)      # the positive controls belong to every fact set
         env = dict(os.environ)
         env["TSG_SELFTEST_CHILD"] = "1"
         c = subprocess.run([sys.executable, os.path.join(VERIF, "check"), prop, "--facts", out, "--no-evidence"], cwd=VERIF, env=env,
